@@ -187,3 +187,20 @@ macro_rules! pickleable_new {
 }
 
 pub(crate) use pickleable_new;
+
+/// Verification hook (guarded, add-only): exposes the crate-private lexer's token stream in a
+/// printable form so that it can be compared with a proved model of the lexer.
+#[cfg(rigetti_quil_rs_verif)]
+pub mod verif {
+    /// Lex `input`; each token is rendered with its `Debug` representation.
+    pub fn lex_debug(input: &str) -> Result<Vec<String>, String> {
+        crate::parser::lex(nom_locate::LocatedSpan::new(input))
+            .map(|tokens| {
+                tokens
+                    .into_iter()
+                    .map(|token| format!("{:?}", token.as_token()))
+                    .collect()
+            })
+            .map_err(|error| error.to_string())
+    }
+}
